@@ -56,6 +56,9 @@ type roleInfo struct {
 	rebase    []*ssa.Function            // functions that re-base positions (pos −= δ)
 	inserters map[*ssa.Function]inserter // helper that stores an entry whose position is parameter #i
 	grow      *ssa.Function
+	growT     int // parameter index (in Params) of the requested size
+	growData  int // functional form only: parameter holding the data slice (−1 for the method form)
+	growBS    int // functional form only: parameter holding BufferSize
 	getter    *ssa.Function
 	setter    *ssa.Function
 	hashInit  *ssa.Function
@@ -152,6 +155,88 @@ func (c *Ctx) roles() *roleInfo {
 							}
 						}
 					}
+				}
+			}
+		}
+	}
+	r.growT, r.growData, r.growBS = 1, -1, -1
+	if r.grow == nil {
+		// functional form: a package-level function returning a freshly made slice, every call of which sits in a
+		// ParserBuffer method, takes Data and BufferSize and stores the result to Data
+		if pb := c.parserBuf(); pb != nil {
+			for _, fn := range c.allFuncs {
+				if fn.Pkg != c.lz || fn.Signature.Recv() != nil || fn.Parent() != nil || fn.Signature.Results().Len() != 1 {
+					continue
+				}
+				if _, ok := fn.Signature.Results().At(0).Type().Underlying().(*types.Slice); !ok {
+					continue
+				}
+				hasMk := false
+				for _, b := range fn.Blocks {
+					for _, in := range b.Instrs {
+						if _, ok := in.(*ssa.MakeSlice); ok {
+							hasMk = true
+						}
+					}
+				}
+				if !hasMk {
+					continue
+				}
+				di, bi, ti, sites, good := -1, -1, -1, 0, true
+				for _, caller := range c.allFuncs {
+					for _, b := range caller.Blocks {
+						for _, in := range b.Instrs {
+							call, ok := in.(*ssa.Call)
+							if !ok || call.Call.StaticCallee() != fn {
+								continue
+							}
+							sites++
+							if !c.isMethodOf(caller, pb) {
+								good = false
+								continue
+							}
+							stored := false
+							for _, rf := range *call.Referrers() {
+								if st, ok := rf.(*ssa.Store); ok && st.Val == ssa.Value(call) {
+									if f := fieldOfAddr(st.Addr); f != nil && f.Name() == "Data" {
+										stored = true
+									}
+								}
+							}
+							if !stored {
+								good = false
+							}
+							for i, a := range call.Call.Args {
+								if f := loadedField(a); f != nil && f.Name() == "Data" {
+									if di >= 0 && di != i {
+										good = false
+									}
+									di = i
+								} else if f != nil && f.Name() == "BufferSize" {
+									if bi >= 0 && bi != i {
+										good = false
+									}
+									bi = i
+								}
+							}
+						}
+					}
+				}
+				if !good || sites == 0 || di < 0 || bi < 0 {
+					continue
+				}
+				for i, p := range fn.Params {
+					if i != di && i != bi {
+						if bt, ok := p.Type().Underlying().(*types.Basic); ok && bt.Info()&types.IsInteger != 0 {
+							if ti >= 0 {
+								good = false
+							}
+							ti = i
+						}
+					}
+				}
+				if good && ti >= 0 {
+					r.grow, r.growT, r.growData, r.growBS = fn, ti, di, bi
 				}
 			}
 		}
